@@ -201,14 +201,14 @@ struct site { const char *func, *file, *fmt; uint8_t prio; uint32_t line; };
 static const struct site SITES[3] = {
 	{ "f", "a.c", "x1", 6, 10 },
 	{ "g", "b.c", "y",  3, 20 },
-	{ "f", "a.c", "z",  7, 10 },        /* same file and line as site 0, other format and priority (list path of log_dcs) */
+	{ "f", "a.c", "x1", 7, 10 },        /* same file, line and format as site 0, other priority (second entry of that line in log_dcs) */
 };
 struct filt { enum qb_log_filter_type type; const char *text; uint8_t lo; };
 static const struct filt FILTS[7] = {
 	{ QB_LOG_FILTER_FILE,       "a.c", 7 },      /* sites 0, 2 */
 	{ QB_LOG_FILTER_FILE,       "*",   4 },      /* site 1 (priority window) */
-	{ QB_LOG_FILTER_FUNCTION,   "g,f", 6 },      /* sites 0, 1 */
-	{ QB_LOG_FILTER_FORMAT,     "x",   7 },      /* site 0 */
+	{ QB_LOG_FILTER_FUNCTION,   "g,f", 6 },      /* sites 0, 1 (site 2 has the same function but priority 7) */
+	{ QB_LOG_FILTER_FORMAT,     "x",   7 },      /* sites 0, 2 */
 	{ QB_LOG_FILTER_FILE_REGEX, "b",   7 },      /* site 1 */
 	{ QB_LOG_FILTER_FORMAT,     "*",   7 },      /* everything */
 	{ QB_LOG_FILTER_FILE,       "*",   6 },      /* what qb_log_init stores for syslog: everything up to LOG_INFO */
